@@ -24,6 +24,21 @@ def jx():
     return _jax
 
 
+_relax_count = 0
+
+
+def relax(every=40):
+    """every `every` calls: drop jax's compilation caches (each compiled function holds memory mappings; a long run of
+    distinct small networks otherwise runs into the per-process mapping limit: 'LLVM ERROR: Unable to allocate section memory')"""
+    global _relax_count
+    _relax_count += 1
+    if _relax_count % every == 0:
+        import gc
+        jax = jx()[0]
+        jax.clear_caches()
+        gc.collect()
+
+
 # ---- Coq literal writers -------------------------------------------------------
 def cz(x):
     x = int(x)
